@@ -31,5 +31,5 @@ try:
             missed.append(name)
         print("%s %s (%.0fs)" % (name, v, time.time() - t0), flush=True)
 finally:
-    subprocess.run("git -C /repo worktree remove --force %s; rm -rf /verif/.build-alt-* /tmp/reseed-evidence" % T, shell=True)
+    subprocess.run("git -C /repo worktree remove --force %s; rm -rf /tmp/reseed-evidence" % T, shell=True)
 print("reseed: %d seeds run, %d not detected: %s" % (n, len(missed), " ".join(missed)))
